@@ -123,7 +123,10 @@ def meta(modname):
     fails = []
     st = getattr(mod, "selftest", None)
     if st is not None:
-        fails = list(st() or [])
+        try:
+            fails = list(st() or [])
+        except Exception:
+            fails = ["selftest raised: " + traceback.format_exc()[-800:]]
     _emit({"conditions": conds, "assumptions": list(getattr(mod, "ASSUMPTIONS", [])),
            "outside": list(getattr(mod, "OUTSIDE", [])), "selftest_failures": fails[:20]})
 
